@@ -10,7 +10,8 @@ Record req := mkReq
   { qm : string; qp : string;
     qclean : string;      (* path.Clean(qp) as computed by Go *)
     qres : response;      (* Allow / Vars come sorted; compared as sets *)
-    qlate : list params }.
+    qlate : list params;
+    qafter : nat }.       (* how many of the Handle calls had been made when the request was served *)
     (* every LATER read of the path variables of this request: by its handler after a gate (held past
        the route timeout while other requests were served; concurrent batch), and after all later
        requests of the case: the map the handler kept, pathvar.Vars(r) again, httpx.ParsePath *)
@@ -85,11 +86,11 @@ Definition lates_agree (r : response) (l : list params) : bool :=
    reproduced when it is one of those Go's map iteration order allows) *)
 Definition r_agrees (c : rcase) : bool :=
   let r0 := new_router (cnf c) (cna c) in
-  let r := build r0 (cregs c) in
   list_eqb reg_result_eqb (build_results r0 (cregs c)) (cregobs c)
   && forallb2 (fun g o => clean_agrees (rpath g) o) (cregs c) (cpclean c)
   && forallb (fun q => clean_agrees (qp q) (qclean q)
-                       && existsb (response_eqb (qres q)) (serve_allowed r (qm q) (qp q))
+                       && existsb (response_eqb (qres q))
+                                  (serve_allowed (build r0 (firstn (qafter q) (cregs c))) (qm q) (qp q))
                        && lates_agree (qres q) (qlate q))
              (creqs c).
 
@@ -136,7 +137,7 @@ Definition same_verdict (a b : reg_result) : bool := Bool.eqb (accepted a) (acce
    route for THAT request *)
 Definition lates_ok (T : table) (nf na : bool) (m p : string) (r : response) (l : list params) : bool :=
   match r with
-  | RHandler h _ => forallb (fun ps => response_ok T nf na (mkReq m p "" (RHandler h ps) [])) l
+  | RHandler h _ => forallb (fun ps => response_ok T nf na (mkReq m p "" (RHandler h ps) [] 0)) l
   | _ => match l with [] => true | _ => false end
   end.
 
@@ -145,19 +146,23 @@ Definition in_scope (c : rcase) : bool := one_var_name_per_position (table_of (c
 
 (* The property's quantifier is "route tables that use one variable name per position":
    tables outside it are compared with the model ([agrees]) but are not property failures. *)
-Definition r_prop_ok (c : rcase) : bool :=
-  let T := table_of (cregs c) in
-  if in_scope c then
-    list_eqb same_verdict (reg_results [] (cregs c)) (cregobs c)
-    && forallb (fun q => response_ok T (cnf c) (cna c) q
-                         && lates_ok T (cnf c) (cna c) (qm q) (qp q) (qres q) (qlate q)) (creqs c)
+(* a request served between two Handle calls is judged against the routes registered SO FAR *)
+Definition table_at_req (c : rcase) (q : req) : table := table_of (firstn (qafter q) (cregs c)).
+
+Definition r_req_ok (c : rcase) (q : req) : bool :=
+  let T := table_at_req c q in
+  if one_var_name_per_position T then
+    response_ok T (cnf c) (cna c) q && lates_ok T (cnf c) (cna c) (qm q) (qp q) (qres q) (qlate q)
   else true.
+
+Definition r_prop_ok (c : rcase) : bool :=
+  (if in_scope c then list_eqb same_verdict (reg_results [] (cregs c)) (cregobs c) else true)
+  && forallb (r_req_ok c) (creqs c).
 
 Definition r_model_obs (c : rcase) :=
   let r0 := new_router (cnf c) (cna c) in
-  let r := build r0 (cregs c) in
   (build_results r0 (cregs c),
-   map (fun q => (clean_string (qp q), serve_allowed r (qm q) (qp q))) (creqs c)).
+   map (fun q => (clean_string (qp q), serve_allowed (build r0 (firstn (qafter q) (cregs c))) (qm q) (qp q))) (creqs c)).
 
 (* ================================================================ server level
    The user's route tables (slices with their own backing arrays) are mounted by a sequence of
@@ -264,16 +269,16 @@ Definition sresponse_ok (T : table) (nf na cors : bool) (q : sreq) : bool :=
   if cors then
     if sqm q =? "OPTIONS" then sresponse_eqb (sqres q) SCors204
     else match sqres q with
-         | SResp (RHandler h ps) => response_ok T nf true (mkReq (sqm q) (sqp q) "" (RHandler h ps) [])
+         | SResp (RHandler h ps) => response_ok T nf true (mkReq (sqm q) (sqp q) "" (RHandler h ps) [] 0)
          | SResp RNotFound =>
            (* a real 404 (default handler), or the CORS answer to a would-be 405 *)
-           response_ok T nf true (mkReq (sqm q) (sqp q) "" RNotFound [])
-           || response_ok T nf true (mkReq (sqm q) (sqp q) "" RNotAllowedCustom [])
-         | SResp RNotFoundCustom => response_ok T nf true (mkReq (sqm q) (sqp q) "" RNotFoundCustom [])
+           response_ok T nf true (mkReq (sqm q) (sqp q) "" RNotFound [] 0)
+           || response_ok T nf true (mkReq (sqm q) (sqp q) "" RNotAllowedCustom [] 0)
+         | SResp RNotFoundCustom => response_ok T nf true (mkReq (sqm q) (sqp q) "" RNotFoundCustom [] 0)
          | _ => false
          end
   else match sqres q with
-       | SResp r => response_ok T nf na (mkReq (sqm q) (sqp q) "" r [])
+       | SResp r => response_ok T nf na (mkReq (sqm q) (sqp q) "" r [] 0)
        | SCors204 => false
        end.
 
@@ -287,8 +292,11 @@ Definition slates_ok (T : table) (nf na cors : bool) (q : sreq) : bool :=
 Definition user_regs (s : scase) (i : nat) : list reg :=
   spec_regs (stables s) (before_start i (sevents s)) i.
 
+(* judged: servers whose table is inside the side condition and that got all their routes before
+   Start (for the others the heap model is still compared by [agrees]) *)
 Definition server_in_scope (s : scase) (i : nat) : bool :=
-  one_var_name_per_position (table_of (user_regs s i)).
+  one_var_name_per_position (table_of (user_regs s i))
+  && negb (mounts_after_start i false (sevents s)).
 
 Definition start_ok (s : scase) (i : nat) (o : start_obs) : bool :=
   if negb (server_in_scope s i) then true
